@@ -478,7 +478,7 @@ class Entry(object):
           persons={'editor': Person('Knuth, Donald E.')})
 
         """
-        parameters = [repr(self.type)]
+        parameters = [repr(self.original_type)]
 
         if self.fields:
             parameters.append("fields=[\n    {}]".format(",\n    ".join(
